@@ -186,13 +186,13 @@ fn gen_sampled(which: Which) -> impl Fn(&mut Choices) -> GraphCase {
             Which::C03 => (2, 6),
             Which::C05 => (3, 7),
         };
-        let g = gen_graph(c, lo, hi, acyclic, which == Which::C03);
+        let g = gen_graph(c, lo, hi, acyclic, which != Which::C05);
         // inputs
         let mut inputs = vec![];
         let k = 1 + c.below(g.n.min(3));
         for _ in 0..k {
             let i = c.below(g.n);
-            let form = if which == Which::C03 { c.below(5) } else { 0 };
+            let form = if which == Which::C03 { c.below(5) } else if which == Which::C02 { c.below(2) * 2 } else { 0 };
             inputs.push(alias(&g, i, form));
         }
         let mut recursive = false;
@@ -250,19 +250,26 @@ impl Prop for GraphProp {
         if !self.exhaustive(ctx) {
             return;
         }
-        if which == Which::C05 && !ctx.quick {
+        if which != Which::C02 && !ctx.quick {
             // uniformly sampled 4-file digraphs, DFS with a cap
             let n_samples = ctx.share(4_000);
             let mut first_fail = None;
             for k in 0..n_samples {
-                let r = mix_bits(crate::wctx::mix(ctx.seed, "C05-4", ctx.shard, k));
+                let r = mix_bits(crate::wctx::mix(ctx.seed, if which == Which::C03 { "C03-4" } else { "C05-4" }, ctx.shard, k));
                 let mask = r & 0xffff;
                 let g = graph_from_mask(4, mask, r >> 16, 0, &[]);
                 let sets = subsets(4);
                 let set = &sets[(r >> 40) as usize % sets.len()];
+                let inputs = if which == Which::C03 && r >> 51 & 1 == 1 {
+                    let mut al: Vec<String> = set.iter().enumerate().map(|(k, i)| alias(&g, *i, (r >> (52 + 2 * k)) as usize)).collect();
+                    al.push(alias(&g, set[0], (r >> 60) as usize + 1));
+                    al
+                } else {
+                    names_of(&g, set)
+                };
                 let base = GraphCase {
                     graph: g.clone(),
-                    inputs: names_of(&g, set),
+                    inputs,
                     recursive: false,
                     stale: r >> 50 & 1 == 1,
                     threads: full_pool(&g),
@@ -282,7 +289,9 @@ impl Prop for GraphProp {
             }
         }
         let total = match (which, ctx.quick) {
+            (Which::C05, true) => 24_000,
             (_, true) => 8_000,
+            (Which::C05, false) => 1_000_000,
             (_, false) => 300_000,
         };
         let n = ctx.share(total);
